@@ -53,6 +53,8 @@ POLICY = [
     ("GenConsts.v", r"SUMMARY_OS.*", "arbitrate", ["C10"]),
     ("GenConsts.v", r"BYTE_ORDER_MARK|PROPERTY_.*|FMTID", "trust", ["C10"]),
     ("GenConsts.v", r"POOL_.*|OPEN_UNWRAPS_CATALOG_CELLS|FFI_GET_TABLE_EXPECTS", "trust", ["C09"]),
+    ("GenIo.v", r"SUMMARY_MUT_ARMS", "trust", ["C10", "C15"]),
+    ("GenIo.v", r"QUERY_WITH_CONJOINS", "trust", ["C03", "C13"]),
     ("GenIo.v", r".*", "trust", ["C15"]),
     ("GenSingleByte.v", r".*", "trust", ["C14"]),
 ]
